@@ -150,6 +150,12 @@ var vc16pVocabSmall = []vc16pTok{
 	{"(", vc16pOther}, {")", vc16pOther}, {"[", vc16pOther}, {"]", vc16pOther}, {":", vc16pOther},
 }
 
+// smaller still, for one more token of length in the thorough tier
+var vc16pVocabTiny = []vc16pTok{
+	{"a", vc16pWord}, {"1", vc16pWord}, {"AND", vc16pWord}, {"TO", vc16pWord},
+	{`"q r"`, vc16pOther}, {"(", vc16pOther}, {")", vc16pOther}, {"[", vc16pOther}, {"]", vc16pOther}, {":", vc16pOther},
+}
+
 func vc16pW(s ...string) []vc16pTok {
 	out := make([]vc16pTok, len(s))
 	for i, x := range s {
@@ -239,7 +245,9 @@ type vc16pBase struct {
 type vc16pCase struct {
 	in    string
 	kind  string // bad-char-<class> | unterminated-quote | unterminated-regexp
-	piece string // what must show up in the tree if the piece was swallowed as text
+	piece string // what shows up in a value of the tree if the piece was swallowed as text
+	left  string // the input before the offending piece (diagnosis only)
+	right string // the input after it ("" for quotes and regexps: the piece extends to the end)
 }
 
 // vc16pCases builds every offending variant of one base token sequence.
@@ -262,28 +270,28 @@ func vc16pCases(base []vc16pTok, gaps []int, emit func(vc16pCase)) {
 				if b.class == "dot" && gap > 0 && sp[0] == "" && base[gap-1].kind == vc16pWord {
 					continue // a dot glued to a word is part of the word
 				}
-				emit(vc16pCase{left + sp[0] + b.text + sp[1] + right, "bad-char-" + b.class, b.text})
+				emit(vc16pCase{left + sp[0] + b.text + sp[1] + right, "bad-char-" + b.class, b.text, left, right})
 			}
 			// unterminated quotes: no matching quote in the rest
 			for _, q := range []string{`"`, `'`} {
 				tail := strings.ReplaceAll(sp[1]+right, q, "")
-				emit(vc16pCase{left + sp[0] + q + tail, "unterminated-quote", strings.TrimSpace(tail)})
+				emit(vc16pCase{left + sp[0] + q + tail, "unterminated-quote", strings.TrimSpace(tail), left, ""})
 			}
 			// unterminated regexps: no unescaped slash in the rest
 			tail := sp[1] + right
 			noSlash := strings.ReplaceAll(tail, "/", "")
-			emit(vc16pCase{left + sp[0] + "/" + noSlash, "unterminated-regexp", strings.TrimSpace(noSlash)})
+			emit(vc16pCase{left + sp[0] + "/" + noSlash, "unterminated-regexp", strings.TrimSpace(noSlash), left, ""})
 			if strings.Contains(tail, "/") {
 				// every slash protected by a backslash (an existing backslash before a slash would
 				// unprotect it, so backslashes are dropped first)
 				esc := strings.ReplaceAll(strings.ReplaceAll(tail, `\`, ""), "/", `\/`)
-				emit(vc16pCase{left + sp[0] + "/" + esc, "unterminated-regexp", ""})
+				emit(vc16pCase{left + sp[0] + "/" + esc, "unterminated-regexp", "", left, ""})
 			}
 			if !strings.HasSuffix(noSlash, `\`) {
 				// the would-be closing slash is escaped
-				emit(vc16pCase{left + sp[0] + "/" + strings.ReplaceAll(noSlash, `\`, "") + `\/`, "unterminated-regexp", ""})
+				emit(vc16pCase{left + sp[0] + "/" + strings.ReplaceAll(noSlash, `\`, "") + `\/`, "unterminated-regexp", "", left, ""})
 				// a lone backslash at the end of the input
-				emit(vc16pCase{left + sp[0] + "/" + strings.ReplaceAll(noSlash, `\`, "") + `\`, "unterminated-regexp", ""})
+				emit(vc16pCase{left + sp[0] + "/" + strings.ReplaceAll(noSlash, `\`, "") + `\`, "unterminated-regexp", "", left, ""})
 			}
 		}
 	}
@@ -345,6 +353,35 @@ func vc16pParse(in string, opts []opt) (e *expr.Expression, err error, pan any, 
 	return
 }
 
+// vc16pLeaves concatenates the string leaves (values and column names) of a tree.
+func vc16pLeaves(x any, sb *strings.Builder, depth int) {
+	if depth > 10000 {
+		return
+	}
+	switch v := x.(type) {
+	case *expr.Expression:
+		if v != nil {
+			vc16pLeaves(v.Left, sb, depth+1)
+			vc16pLeaves(v.Right, sb, depth+1)
+		}
+	case []*expr.Expression:
+		for _, e := range v {
+			vc16pLeaves(e, sb, depth+1)
+		}
+	case *expr.RangeBoundary:
+		if v != nil {
+			vc16pLeaves(v.Min, sb, depth+1)
+			vc16pLeaves(v.Max, sb, depth+1)
+		}
+	case string:
+		sb.WriteString(v)
+		sb.WriteByte(0x1f)
+	case expr.Column:
+		sb.WriteString(string(v))
+		sb.WriteByte(0x1f)
+	}
+}
+
 func vc16pString(e *expr.Expression) (s string) {
 	defer func() {
 		if recover() != nil {
@@ -357,6 +394,10 @@ func vc16pString(e *expr.Expression) (s string) {
 type vc16pFinding struct{ cat, msg string }
 
 // vc16pCheck: Parse must fail on the case's input under every option.
+// When Parse wrongly succeeds the tag says what became of the offending text (a diagnosis that
+// separates root causes, not part of the oracle): "absorbed" into a value of the tree, "skipped"
+// like whitespace, "input-truncated" (the rest of the input was ignored), "ignored-at-end"
+// (nothing follows, so the last two cannot be told apart) or just "dropped".
 func vc16pCheck(c vc16pCase) (out []vc16pFinding) {
 	for _, cfg := range vc16pCfgs {
 		e, err, pan, site := vc16pParse(c.in, cfg.opts)
@@ -372,8 +413,21 @@ func vc16pCheck(c vc16pCase) (out []vc16pFinding) {
 		tree := "<nil>"
 		if e != nil {
 			tree = vc16pString(e)
-			if c.piece != "" && strings.Contains(tree, c.piece) {
-				how = "absorbed"
+			var leaves strings.Builder
+			vc16pLeaves(e, &leaves, 0)
+			same := func(other string) bool {
+				o, oerr, opan, _ := vc16pParse(other, cfg.opts)
+				return opan == nil && oerr == nil && o != nil && vc16pString(o) == tree
+			}
+			switch {
+			case c.piece != "" && strings.Count(leaves.String(), c.piece) > strings.Count(c.left+c.right, c.piece):
+				how = "absorbed" // the offending text became (part of) a value
+			case strings.TrimSpace(c.right) == "":
+				how = "ignored-at-end"
+			case same(c.left + " " + c.right):
+				how = "skipped" // treated like whitespace
+			case same(c.left):
+				how = "input-truncated" // everything from the offending piece on was ignored
 			}
 		}
 		what := map[string]string{
@@ -428,8 +482,10 @@ func TestVerifStandin_C16P(t *testing.T) {
 	rep.Failures = nil
 
 	fullLen, nRandom := 2, 1000
+	next := vc16pVocabSmall
 	if tier == "thorough" {
 		fullLen, nRandom = 3, 10000
+		next = vc16pVocabTiny
 	}
 
 	workers := runtime.NumCPU()
@@ -457,7 +513,7 @@ func TestVerifStandin_C16P(t *testing.T) {
 					baseOK := false
 					bs := vc16pJoin(base)
 					for _, cfg := range vc16pCfgs {
-						if _, err, pan, _ := vc16pParse(bs, cfg.opts); pan == nil && err == nil {
+						if e, err, pan, _ := vc16pParse(bs, cfg.opts); pan == nil && err == nil && e != nil {
 							baseOK = true
 						}
 					}
@@ -512,8 +568,8 @@ func TestVerifStandin_C16P(t *testing.T) {
 	endDomain("empty-base")
 	vc16pEnumerate(vc16pVocab, 1, fullLen, push)
 	endDomain(fmt.Sprintf("base-token-sequences<=%d-over-%d-tokens", fullLen, len(vc16pVocab)))
-	vc16pEnumerate(vc16pVocabSmall, fullLen+1, fullLen+1, push)
-	endDomain(fmt.Sprintf("base-token-sequences=%d-over-%d-tokens", fullLen+1, len(vc16pVocabSmall)))
+	vc16pEnumerate(next, fullLen+1, fullLen+1, push)
+	endDomain(fmt.Sprintf("base-token-sequences=%d-over-%d-tokens", fullLen+1, len(next)))
 	for _, c := range vc16pCurated {
 		push(c)
 	}
@@ -561,16 +617,20 @@ func TestVerifStandin_C16P(t *testing.T) {
 	for _, c := range cats {
 		rep.ByCategory[c] = total.count[c]
 		rep.FailCount += total.count[c]
-		for _, f := range total.best[c] {
-			if len(rep.Failures) < 25 {
-				rep.Failures = append(rep.Failures, f.msg)
+	}
+	// at most 3 messages per category and 25 in total; every category gets its first message
+	// before any category gets a second one
+	for round := 0; round < 3; round++ {
+		for _, c := range cats {
+			if fs := total.best[c]; round < len(fs) && len(rep.Failures) < 25 {
+				rep.Failures = append(rep.Failures, fs[round].msg)
 			}
 		}
 	}
 	rep.Bound = fmt.Sprintf("inputs built as <complete tokens><offending piece><rest>: base = every sequence of <=%d tokens over %d token texts (words, numbers, wildcard, escaped word, non-ASCII word, keywords, both phrase kinds, regexp, all 14 operator symbols), every sequence of %d tokens over %d token texts, %d curated valid queries and %d seeded random compound queries (2..5 curated queries joined by AND/OR/implicit AND/AND NOT, optionally parenthesised); "+
 		"offending piece inserted at EVERY token gap (start, between any two tokens, end; for the random compound queries: start, end and 3 random gaps) with {none, both, left, right} spaces around it: %d characters that start no token (10 ASCII punctuation, '.', 5 control incl. NUL/VT/FF, 6 invalid UTF-8 sequences, 12 non-letter/non-digit Unicode incl. NBSP, BOM, ZWSP, combining mark, superscript digit, U+FFFD), an opening \" or ' with no matching quote in the rest, an opening / with the rest free of slashes / with all slashes escaped / with the closing slash escaped / ending in a lone backslash; each x {no default field, default field \"f\"}; expected: Parse returns an error. "+
 		"distinct_nontrivial = inputs whose base (the same text without the offending piece) parses successfully, i.e. the offending piece is the only reason to fail",
-		fullLen, len(vc16pVocab), fullLen+1, len(vc16pVocabSmall), len(vc16pCurated), nRandom, len(vc16pBadChars))
+		fullLen, len(vc16pVocab), fullLen+1, len(next), len(vc16pCurated), nRandom, len(vc16pBadChars))
 	vc16pWriteReport(rep)
 	for _, f := range rep.Failures {
 		t.Errorf("C16 (parser clause) violated: %s", f)
